@@ -401,6 +401,9 @@ pub fn remaining_file_content<'a>(input: &'a mut LineReader) -> Result<&'a str, 
         (Ok(_), Some(b'\n')) | (Ok(""), None) => {
             let content_len = bytes.len().saturating_sub(1);
 
+            // The buffered data also ends where the source failed, that is not the end of the file.
+            input.reader.check_io_error()?;
+
             // SAFETY we just checked this,
             Ok(unsafe {
                 std::str::from_utf8_unchecked(
